@@ -309,9 +309,15 @@ fn det(t: &mut Toks, visual: bool) -> Det {
     let (mut quality, mut feature) = (None, None);
     if visual {
         quality = t.opt_f32();
-        let n = t.usize();
-        if n > 0 {
-            feature = Some((0..n).map(|_| t.f32()).collect());
+        // `NFEAT`: a count, or `e` for a feature vector that is present but empty (`Some(&[])` / `[]`)
+        let nt = t.next();
+        if nt == "e" {
+            feature = Some(Vec::new());
+        } else {
+            let n: usize = nt.parse().unwrap();
+            if n > 0 {
+                feature = Some((0..n).map(|_| t.f32()).collect());
+            }
         }
     }
     Det { bbox, custom, quality, feature }
